@@ -130,6 +130,18 @@ def enum_desc(items, name):
     return {"raw": raw, "reader": reader, "nonexh": nonexh, "arms": [(a[0], a[1], a[2]) for a in arms]}
 
 
+def int_literal(text):
+    """value of a Rust integer literal (radix prefix, `_`, optional type suffix), or None"""
+    m = re.match(r"^(0x[0-9a-fA-F_]+|0o[0-7_]+|0b[01_]+|[0-9][0-9_]*?)((?:u|i)(?:8|16|32|64|128|size))?$", text)
+    if not m:
+        return None
+    digits = m.group(1).replace("_", "")
+    try:
+        return int(digits, 0) if digits[:2] in ("0x", "0o", "0b") else int(digits, 10)
+    except ValueError:
+        return None
+
+
 def consts_desc(items, name, base_ident, arbitrary):
     """canonical description of ZERO / DEFAULT_RAW_VALUE / DEFAULT / new() / Default::default():
     dict(zero=0, default=None | ('lit', n) | ('const', ident))"""
@@ -160,8 +172,8 @@ def consts_desc(items, name, base_ident, arbitrary):
             if not m:
                 raise ValueError("unexpected DEFAULT_RAW_VALUE: " + body[:120])
             body = m.group(1)
-        m = re.match(r"^(0x[0-9a-fA-F_]+|[0-9][0-9_]*)$", body)
-        out["default"] = ["lit", int(body.replace("_", ""), 0)] if m else ["const", body]
+        v = int_literal(body)
+        out["default"] = ["lit", v] if v is not None else ["const", body]
         for nm, want in (("DEFAULT", "Self : : new_with_raw_value ( Self : : DEFAULT_RAW_VALUE )"), ("new", "Self : : DEFAULT"), ("default", "Self : : DEFAULT")):
             it = byname.get(nm)
             if it is None:
